@@ -2,9 +2,13 @@
 
 Correspondence (all against the REAL code in $VERIF_REPO, nothing copied):
   A  primitives: b'%d' / int(readline()) / bytes.strip() as used by empackage and assembler.py
-  B  the real ssh.connect (Popen, socketpair and get_module_source replaced from outside; `zlib`
-     replaced by a stand-in codec) -> the two wfile.write() payloads and the bootstrap one-liner are
-     compared BYTE FOR BYTE with the model's connect_upload / boot_read_len
+  B  the real ssh.connect (Popen and socketpair replaced from outside; `zlib` replaced by a stand-in
+     codec; the REAL get_module_source / empackage run: the generated module sources are real files in
+     a scratch directory and only the lookup `importlib.util.find_spec`, as seen from sshuttle.ssh, is
+     redirected to specs whose origin points there) -> the two wfile.write() payloads and the
+     bootstrap one-liner are compared BYTE FOR BYTE with the model's connect_upload / boot_read_len on
+     the bytes of those files; implementation-only oracle: the N of `stdin.read(N)` is the number of
+     BYTES of the assembler file, and exactly those bytes are written first
   C  the REAL bootstrap: argv produced by the real ssh.connect is run in a fresh interpreter whose
      only addition is a sitecustomize prelude (audit hook logging every compile/exec, a finder that
      refuses to import sshuttle.* from disk, an exit hook dumping sshuttle.cmdline_options); the
@@ -16,8 +20,11 @@ Correspondence (all against the REAL code in $VERIF_REPO, nothing copied):
      I/O: order of pipe writes / queued frames / sync verification vs the model's client_startup
   E  stdout of the really bootstrapped real server starts with the model's server_sync."""
 import hashlib
+import importlib.machinery
+import importlib.util
 import json
 import os
+import re
 import shutil
 import socket
 import subprocess
@@ -29,7 +36,8 @@ import types
 
 PROP = "C18"
 RULE = ("module tables x option sets x segmentations: real and generated module sources (empty, 1 byte, ASCII code, arbitrary "
-        "UTF-8, > 64 KiB incompressible, > 1 MiB), option values among bool/int/None/resolver strings (plus out-of-fragment "
+        "UTF-8, > 64 KiB incompressible, > 1 MiB; at least a quarter of the tables carry non-ASCII UTF-8 text in EVERY module and in "
+        "the assembler source — the real assembler with comment lines of 2-, 3- and 4-byte characters inserted at a line boundary), option values among bool/int/None/resolver strings (plus out-of-fragment "
         "strings checked by the implementation-only oracle), uploads cut whole / 1-byte dribble / fixed 2..70000 / random / exactly "
         "at and one byte around every framing boundary, malformed uploads (truncated, bad length line, non-ASCII name, unknown "
         "parent, early blank name, trailing bytes); a case is non-trivial when at least one module body crosses a piece boundary "
@@ -38,7 +46,9 @@ TRUSTED_BASE = [
     "zlib: NOT verified — Section hypothesis `sync_flush_law` (decompressing compress(x)+flush(Z_SYNC_FLUSH) of the k-th chunk on the shared stream yields exactly x); exercised with real zlib in part C",
     "modelled, not verified: io.BufferedReader.read(n)/readline() (exactly n bytes / through the first newline unless EOF), bytes.strip(), int(bytes) for digit strings, b'%d', repr/exec of bool/int/None and of printable-ASCII strings without quote/backslash, str.rsplit('.',1), sys.modules lookup",
     "compile()/exec() of a module body and types.ModuleType are opaque: the model records (name, source bytes) at the point where assembler.py calls compile()",
-    "harness: fake Popen / socketpair shim / stand-in zlib module / sitecustomize prelude in a scratch directory (the one-liner and assembler.py themselves run unmodified)",
+    "harness: fake Popen / socketpair shim / stand-in zlib module / sitecustomize prelude in a scratch directory (the one-liner and assembler.py themselves run unmodified); "
+    "module sources are files in a scratch directory found through a redirected importlib.util.find_spec (get_module_source, empackage and connect run unmodified); "
+    "a non-ASCII assembler source is the real assembler.py plus comment lines",
 ]
 ASSUMPTIONS = [
     "a blocking wfile.write() on the ssh socket transfers the whole buffer (ssh.connect ignores the return value)",
@@ -228,24 +238,51 @@ class Boundary(object):
         self.srcs = srcs
         self.stub_zlib = stub_zlib
         self.verbose = verbose
-        self.packaged = []
+        self.packaged = []          # (name, bytes of the file the real get_module_source was pointed at), in lookup order
         self.sock = None
         self.proc = None
         self.events = []
+        self.srcdir = None
+        self.paths = {}
 
     def __enter__(self):
         import sshuttle.ssh as ssh
         import sshuttle.helpers as helpers
         self.ssh, self.helpers = ssh, helpers
-        self.old = (ssh.ssubprocess, ssh.get_module_source, ssh.socket, ssh.zlib, helpers.verbose, helpers.log)
+        self.old = (ssh.ssubprocess, ssh.importlib, ssh.socket, ssh.zlib, helpers.verbose, helpers.log)
         helpers.log = lambda s: None
-        real_gms = ssh.get_module_source
         me = self
+        # the module sources of this table as real files; the REAL get_module_source reads them
+        if self.srcs:
+            self.srcdir = tempfile.mkdtemp(prefix="c18-src-")
+            for name, data in self.srcs.items():
+                path = os.path.join(self.srcdir, name + ".py")
+                with open(path, "wb") as f:
+                    f.write(data)
+                self.paths[name] = path
+        real_importlib = ssh.importlib
 
-        def gms(name):
-            d = me.srcs[name] if me.srcs is not None and name in me.srcs else real_gms(name)
-            me.packaged.append((name, d))
-            return d
+        def find_spec(name, package=None):
+            if name in me.paths:
+                spec = importlib.machinery.ModuleSpec(name, None, origin=me.paths[name])
+                spec.has_location = True
+            else:
+                spec = importlib.util.find_spec(name, package)
+            with open(spec.origin, "rb") as f:       # the spec side: the bytes present on the client
+                me.packaged.append((name, f.read()))
+            return spec
+
+        class UtilShim(object):
+            def __getattr__(self, k):
+                return getattr(importlib.util, k)
+        util = UtilShim()
+        util.find_spec = find_spec
+
+        class ImportlibShim(object):
+            def __getattr__(self, k):
+                return getattr(real_importlib, k)
+        shim = ImportlibShim()
+        shim.util = util
 
         def popen(argv, **kw):
             me.proc = FakePopen(argv, **kw)
@@ -258,7 +295,7 @@ class Boundary(object):
             me.sock = s2
             return a, s2
         ssh.ssubprocess = types.SimpleNamespace(Popen=popen, PIPE=subprocess.PIPE)
-        ssh.get_module_source = gms
+        ssh.importlib = shim
         ssh.socket = types.SimpleNamespace(socketpair=socketpair)
         if self.stub_zlib:
             z = types.ModuleType("zlib")
@@ -269,7 +306,9 @@ class Boundary(object):
 
     def __exit__(self, *a):
         ssh, helpers = self.ssh, self.helpers
-        (ssh.ssubprocess, ssh.get_module_source, ssh.socket, ssh.zlib, helpers.verbose, helpers.log) = self.old
+        (ssh.ssubprocess, ssh.importlib, ssh.socket, ssh.zlib, helpers.verbose, helpers.log) = self.old
+        if self.srcdir is not None:
+            shutil.rmtree(self.srcdir, ignore_errors=True)
         if self.proc is not None:
             self.proc.close()
         if self.sock is not None:
@@ -428,6 +467,103 @@ def gen_source(rng, kind, size):
         out.append(ln)
         n += len(ln)
     return b"".join(out)
+
+
+def uchar(rng, nonascii=False):
+    """one character that survives open(..., 'rt') / encode unchanged and is harmless in a Python comment"""
+    while True:
+        c = rng.choice(([] if nonascii else [rng.randint(0x20, 0x7e)]) +
+                       [rng.randint(0xa0, 0x7ff), rng.randint(0x800, 0xd7ff), rng.randint(0xe000, 0xfffd), rng.randint(0x10000, 0x10ffff)])
+        if c not in (0x2028, 0x2029, 0x85):
+            return chr(c)
+
+
+def nonascii_comment(rng, extra=None):
+    """b'# ...\n' with at least one non-ASCII character; extra = exact number of bytes beyond the number of characters, or None"""
+    if extra == 1:
+        txt = rng.choice(["é", "ß", "µ", "José", "naïve"])
+    else:
+        txt = rng.choice(["", "stage two — maintained by José → see ssh.py", "日本語", "\U0001f600"]) or \
+            "".join(uchar(rng, nonascii=(i == 0)) for i in range(rng.randint(1, 40)))
+        if txt.isascii():
+            txt += "é"
+    return ("# %s\n" % txt).encode("utf-8")
+
+
+def real_source_bytes(name):
+    """the bytes of a real sshuttle module file (read by the harness itself, in binary)"""
+    with open(importlib.util.find_spec(name).origin, "rb") as f:
+        return f.read()
+
+
+def assembler_with_comments(rng, extra=None):
+    """the REAL assembler.py with non-ASCII comment lines inserted at line boundaries (start / end / anywhere):
+    still the program under test, but its length in characters differs from its length in bytes"""
+    lines = real_source_bytes("sshuttle.assembler").split(b"\n")
+    body, last = lines[:-1], lines[-1]
+    where = rng.choice(["start", "end", "any", "any", "all"])
+    pos = {"start": [0], "end": [len(body)], "any": sorted(rng.sample(range(len(body) + 1), rng.randint(1, 3))),
+           "all": [0, rng.randrange(len(body) + 1), len(body)]}[where]
+    if extra == 1:
+        pos = [rng.choice([0, len(body), rng.randrange(len(body) + 1)])]
+    out = []
+    for i, ln in enumerate(body + [None]):
+        if i in pos:
+            out.append(nonascii_comment(rng, extra)[:-1])
+        if ln is not None:
+            out.append(ln)
+    return b"\n".join(out + [last])
+
+
+def sprinkle(rng, table):
+    """non-ASCII UTF-8 text (a comment line) into EVERY module source of the table"""
+    for n in list(table):
+        d = table[n]
+        c = nonascii_comment(rng)
+        if rng.random() < 0.5 or not d:
+            table[n] = c + d
+        else:
+            table[n] = d + (b"" if d.endswith(b"\n") else b"\n") + c
+    return table
+
+
+def nonascii_in(data):
+    return any(b >= 128 for b in data)
+
+
+def table_json(table, limit=65536):
+    """a module table for a replay file (hex per module), or its sizes when it is too large"""
+    if sum(len(d) for d in table.values()) <= limit:
+        return {"table_hex": dict((n, bytes(d).hex()) for n, d in table.items())}
+    return {"table_sizes": dict((n, [len(d), sha(d)[:16]]) for n, d in table.items())}
+
+
+READ_RX = re.compile(r"stdin\.read\((\d+)\)")
+
+
+def check_read_len(ctx, argv, writes, packaged, options, srcs, where):
+    """implementation-only oracle: the bootstrap one-liner reads exactly the number of BYTES of the assembler source
+    that is sent, and what is sent first is the client's assembler source file byte for byte.  -> True when it holds"""
+    src_of = dict(packaged)
+    a_src = src_of.get("sshuttle.assembler")
+    sent = bytes(writes[0]) if writes else b""
+    ms = READ_RX.findall(argv[-1]) if argv else []
+    n = int(ms[0]) if len(ms) == 1 else None
+    ctx.count("readlen_checked_%s_assembler" % ("non_ascii" if a_src is not None and nonascii_in(a_src) else "ascii"))
+    table = dict(srcs or {})
+    if a_src is not None:
+        table.setdefault("sshuttle.assembler", a_src)
+    rep = dict(table_json(table), kind="readlen", where=where, options_json=options, options=opts_canon(options),
+               bootstrap=argv[-1][:300] if argv else None, read_len=n, assembler_bytes=None if a_src is None else len(a_src),
+               assembler_chars=None if a_src is None else len(a_src.decode("utf-8", "replace")), first_write_bytes=len(sent))
+    ok = True
+    if a_src is None or sent != a_src:
+        ctx.violation("the first write of the upload is not the client's assembler source file byte for byte", rep)
+        ok = False
+    if n != len(sent) or (a_src is not None and n != len(a_src)):
+        ctx.violation("the bootstrap one-liner does not read exactly the number of BYTES of the assembler source that is sent", rep)
+        ok = False
+    return ok
 
 
 def gen_table(rng, profile):
@@ -643,17 +779,23 @@ def bootstrap_case(ctx, scr, case, rng):
     options = case["options"]
     how = case["how"]
     stub = mode == "stub"
+    real_server = case.get("real_server", False)     # every module but (possibly) the assembler is the shipped source
     argv, writes, packaged = real_connect(options, srcs, stub_zlib=stub, verbose=case.get("verbose", 0))
     info = {"mode": mode, "how": how, "options": opts_canon(options),
             "sources": [(n, len(d), sha(d)[:16]) for n, d in packaged]}
     if len(writes) != 2:
         ctx.violation("ssh.connect did not write exactly (assembler, packages)", dict(info, writes=len(writes)))
         return
+    a_nonascii = nonascii_in(dict(packaged).get("sshuttle.assembler", b""))
+    ctx.count("boot_assembler_" + ("non_ascii" if a_nonascii else "ascii"))
+    if all(nonascii_in(d) for _, d in packaged):
+        ctx.count("boot_table_non_ascii_in_every_module")
+    check_read_len(ctx, argv, writes, packaged, options, srcs, "bootstrap")
     upload = writes[0] + writes[1]
     extra = case.get("extra", b"")
     pieces = cut(rng, upload + extra, how, len(writes[0]))
     sleeps = set(rng.randrange(len(pieces)) for _ in range(min(6, len(pieces)))) if len(pieces) > 1 else ()
-    res = run_child(scr, argv, pieces, sleeps, stub_zlib=stub, wait_sync=(srcs is None))
+    res = run_child(scr, argv, pieces, sleeps, stub_zlib=stub, wait_sync=real_server)
     timed_out = "timeout" if res["rc"] == "timeout" else None
     asm_obs, mods_obs = observed_modules(res)
     opts_obs = observed_options(res)
@@ -682,7 +824,7 @@ def bootstrap_case(ctx, scr, case, rng):
         ctx.count("srclen_" + ("0" if len(d) == 0 else "1" if len(d) == 1 else "<4k" if len(d) < 4096 else
                                "<64k" if len(d) < 65536 else "<1M" if len(d) < 1 << 20 else ">=1M"))
     rep = dict(info, replay_case={"mode": mode, "how": how, "options": opts_canon(options), "seed": case.get("seed"),
-                                  "profile": case.get("profile")})
+                                  "profile": case.get("profile")}, assembler_non_ascii=a_nonascii)
     # ---- oracle on the implementation alone
     a_src = src_of["sshuttle.assembler"]
     if asm_obs != (len(a_src), sha(a_src)):
@@ -692,9 +834,9 @@ def bootstrap_case(ctx, scr, case, rng):
                                                                               expected=[(n, l, s[:16]) for n, l, s in expect]))
     if optdata and opts_obs != opts_canon(options):
         ctx.violation("remote option values differ from the client's", dict(rep, seen=opts_obs))
-    if any(e["ev"] == "diskimport" for e in res["log"]) and mods_obs == expect and srcs is None:
+    if any(e["ev"] == "diskimport" for e in res["log"]) and mods_obs == expect and real_server:
         ctx.violation("remote imported sshuttle code from disk instead of the upload", rep)
-    if srcs is None:
+    if real_server:
         if not res["out"].startswith(case["sync"]):
             ctx.violation("server's first stdout bytes are not the sync string", dict(rep, stdout=hx(res["out"][:32]), stderr=res["err"][-300:].decode("utf-8", "replace")))
         ctx.count("server_sync_seen")
@@ -788,15 +930,30 @@ def part_packaging(ctx):
     for i in range(n):
         profile = rng.choice(["tiny", "small", "small", "medium"])
         srcs = gen_table(rng, profile)
-        srcs["sshuttle.assembler"] = gen_source(rng, "ascii", rng.randint(0, 300)) if rng.random() < 0.7 else b""
+        # the assembler text is only packaged here, never run: any text will do.  i % 3 == 0: non-ASCII in every module
+        k = rng.random()
+        if i % 3 == 0:
+            srcs["sshuttle.assembler"] = (assembler_with_comments(rng, extra=rng.choice([None, None, 1])) if k < 0.4 else
+                                          nonascii_comment(rng, extra=rng.choice([None, 1])) if k < 0.6 else
+                                          gen_source(rng, "utf8", rng.randint(1, 600)))
+            if not nonascii_in(srcs["sshuttle.assembler"]):
+                srcs["sshuttle.assembler"] += nonascii_comment(rng)
+        else:
+            srcs["sshuttle.assembler"] = gen_source(rng, "ascii", rng.randint(0, 300)) if k < 0.7 else b""
         if rng.random() < 0.3:
             srcs["sshuttle.cmdline_options"] = gen_source(rng, "ascii", 30)
+        if i % 3 == 0:
+            a = srcs.pop("sshuttle.assembler")
+            sprinkle(rng, srcs)
+            srcs["sshuttle.assembler"] = a
+            ctx.count("pkg_table_non_ascii_in_every_module")
         options = gen_options(rng, full=rng.random() < 0.3, allow_oos=True)
         if rng.random() < 0.08:
             options = {}                 # empty optdata: empackage falls back to get_module_source
             srcs.setdefault("sshuttle.cmdline_options", b"fallback = 1\n")
         verbose = rng.choice([0, 0, 1, 2, 3])
         argv, writes, packaged = real_connect(options, srcs, stub_zlib=True, verbose=verbose)
+        check_read_len(ctx, argv, writes, packaged, options, srcs, "packaging")
         ctx.count("pkg_" + profile)
         ctx.count("pkg_options_" + ("empty" if not options else "in_fragment" if in_fragment(options) else "outside_fragment"))
         ctx.case(("pkg", tuple((a, sha(b)) for a, b in packaged), tuple(opts_canon(options))), nontrivial=True,
@@ -843,8 +1000,10 @@ def part_bootstrap(ctx, scr):
     hows = ["whole", "dribble", "fixed7", "fixed4096", "random", "bounds", "bounds-1", "bounds+1"] if quick else \
         ["whole", "dribble", "fixed2", "fixed3", "fixed7", "fixed4096", "fixed8192", "fixed65536", "fixed70000", "random", "random",
          "random", "bounds", "bounds-1", "bounds+1", "bounds3"]
-    for how in hows:
-        cases.append({"mode": "real", "srcs": None, "how": how, "sync": sync, "verbose": rng.choice([0, 1, 2]),
+    for i, how in enumerate(hows):
+        # the shipped sources; every third run with non-ASCII comment lines in the (real) assembler
+        cases.append({"mode": "real", "srcs": {"sshuttle.assembler": assembler_with_comments(rng, extra=1 if i == 1 else None)} if i % 3 == 1 else None,
+                      "real_server": True, "how": how, "sync": sync, "verbose": rng.choice([0, 1, 2]),
                       "options": dict(gen_options(rng, full=True), auto_hosts=False, auto_nets=False)})
     # generated sources, real zlib
     plan = [("tiny", "dribble"), ("tiny", "bounds3"), ("small", "dribble"), ("small", "random"), ("small", "bounds-1"),
@@ -875,9 +1034,23 @@ def part_bootstrap(ctx, scr):
     for t1 in ([4096, 8192, 65536, 1000] if quick else NBYTES_TARGETS[3:]):
         cases.append({"mode": "real", "srcs": gen_table_nbytes(rng, [t1], True), "how": rng.choice(["whole", "random", "fixed8192"]),
                       "profile": "nbytes%d" % t1, "options": gen_options(rng, full=True), "extra": b""})
+    # generated tables: every third one gets non-ASCII text in every module and in the assembler (the real assembler
+    # plus comment lines: it is the program under test and has to run)
+    gen_cases = [c for c in cases if not c.get("real_server")]
+    for i, c in enumerate(gen_cases):
+        if i % 3 == 0 or rng.random() < 0.1:
+            if c["profile"] != "tiny" and not c["profile"].startswith("nbytes"):
+                sprinkle(rng, c["srcs"])
+            c["srcs"]["sshuttle.assembler"] = assembler_with_comments(rng, extra=rng.choice([None, None, 1]))
+    n_na = sum(1 for c in cases if c["srcs"] and "sshuttle.assembler" in c["srcs"])
+    ctx.extra["bootstrap_runs_with_non_ascii_assembler"] = "%d of %d" % (n_na, len(cases))
     timeouts = 0
     for c in cases:
+        _t0 = time.time()
         timeouts += 1 if bootstrap_case(ctx, scr, c, rng) == "timeout" else 0
+        if os.environ.get("C18_TIMING"):
+            sys.stderr.write("case %s %s %s real=%s na=%s: %.2fs\n" % (c["mode"], c.get("profile"), c["how"], c.get("real_server"),
+                                                                     bool(c["srcs"] and "sshuttle.assembler" in c["srcs"]), time.time() - _t0))
         if timeouts >= 3:
             ctx.disagree("bootstrap", "three bootstrap runs timed out; remaining cases skipped", "timeout", "-")
             break
@@ -888,8 +1061,7 @@ def part_malformed(ctx, scr):
     """hand-made uploads (stand-in codec) fed to the real one-liner + real assembler vs remote_run"""
     rng = ctx.rng
     quick = ctx.quick()
-    import sshuttle.ssh as ssh
-    asm = ssh.get_module_source("sshuttle.assembler")
+    asm = real_source_bytes("sshuttle.assembler")
     argv = [sys.executable, "-c", "import sys, os; verbosity=0; stdin = os.fdopen(0, 'rb'); "
             "exec(compile(stdin.read(%d), 'assembler.py', 'exec')); sys.exit(98);" % len(asm)]
     # the one-liner text is the one the real connect produces (checked in part B); rebuild it from a real call
@@ -1084,6 +1256,7 @@ def part_client(ctx):
                [b"\0", b"\0", b"SSHUTTLE", b"0001"], [b"\0\0sshuttle0001"]]
     n = 0
     srcs_small = dict((k, b"# %s\n" % k.encode()) for k in SRCNAMES)
+    srcs_small_na = dict((k, ("# %s — é → \U0001f600\n" % k).encode("utf-8")) for k in SRCNAMES)
     for sc in scripts:
         for poll in (None, 0, 98, 255) if not quick else (None, 98):
             for seed in (None, [], ["h1", "h2.example"], ["x" * 70000]):
@@ -1095,7 +1268,8 @@ def part_client(ctx):
                         # a tiny latency budget: smaller than the multiplexer's very first message
                         options["latency_buffer_size"] = rng.choice([1, 2, 5, 6, 7, 8, 14, 15, 16])
                         ctx.count("client_tiny_latency_budget")
-                    ev, writes, packaged = client_trace(options, sc, poll, seed, accept, srcs_small if n % 3 else None)
+                    ev, writes, packaged = client_trace(options, sc, poll, seed, accept,
+                                                        (srcs_small_na if n % 3 == 2 else srcs_small) if n % 3 else None)
                     n += 1
                     c1, c2 = (writes + [b"", b""])[:2]
                     seedtok = "-" if seed is None else "S" + hx("\n".join(seed).encode())
@@ -1149,6 +1323,19 @@ def replay(ctx, rp):
     """re-run a stored failing input against the real code; True if it still fails"""
     r = rp.get("replay", {})
     before = len(ctx.violations)
+    if r.get("kind") == "readlen":
+        if "table_hex" not in r:
+            print("table too large to be stored; sizes:", r.get("table_sizes"))
+            return False
+        srcs = dict((n, bytes.fromhex(h)) for n, h in r["table_hex"].items())
+        if set(srcs) == {"sshuttle.assembler"} and r.get("where") == "bootstrap":
+            pass        # the other modules are the shipped sources
+        argv, writes, packaged = real_connect(r["options_json"], srcs, stub_zlib=True)
+        a = dict(packaged)["sshuttle.assembler"]
+        print("bootstrap:", argv[-1][:200])
+        print("assembler source: %d bytes, %d characters; first write: %d bytes" % (len(a), len(a.decode("utf-8", "replace")), len(writes[0])))
+        check_read_len(ctx, argv, writes, packaged, r["options_json"], srcs, "replay")
+        return len(ctx.violations) > before
     if "replay_case" in r:
         import random
         rc = r["replay_case"]
@@ -1179,6 +1366,10 @@ def replay(ctx, rp):
 
 
 if __name__ == "__main__":
+    import locale
+    if locale.getpreferredencoding(False).lower().replace("-", "") != "utf8" and not sys.flags.utf8_mode:
+        # get_module_source opens the sources in text mode with the locale's encoding (ASSUMPTIONS: UTF-8 locale)
+        os.execv(sys.executable, [sys.executable, "-X", "utf8"] + sys.argv)
     sys.path.insert(0, os.path.join(os.path.dirname(os.path.abspath(__file__)), ".."))
     import framework
     sys.exit(framework.main(sys.modules[__name__]))
